@@ -27,7 +27,7 @@ def cases(draw, tier):
                          min_size=n, max_size=n))
     dpool = draw(st.lists(st.one_of(st.sampled_from([0, 0, 1]), st.integers(0, 3000)), min_size=8, max_size=24))
     return dict(nl=nl, lanes=lanes, stim=[[list(x) for x in row] for row in stim], dpool=dpool,
-                caps=draw(st.sampled_from([4, 8, 16, 16, 32, 64])),
+                caps=draw(st.one_of(st.sampled_from([4, 8, 16, 16, 32, 64]), W.CAPS)),          # uniform or per line
                 w_reuse=draw(st.booleans()), w_strip=draw(st.booleans()), l_reuse=draw(st.booleans()), l_strip=draw(st.booleans()),
                 cuda=draw(st.sampled_from([False, False, True])), far=draw(st.sampled_from([0, 0, 1, 2])))
 
@@ -46,7 +46,7 @@ def prop(case):
         for j in range(4):
             delays[0, l, j >> 1, j & 1] = p[(4 * l + j) % len(p)] / 137.0
     klass = WaveSimCuda if case['cuda'] else WaveSim
-    ws = klass(c, delays, sims=lanes, c_caps=case['caps'], c_reuse=case['w_reuse'], strip_forks=case['w_strip'])
+    ws = klass(c, delays, sims=lanes, c_caps=W.caps_for(nlines, case['caps']), c_reuse=case['w_reuse'], strip_forks=case['w_strip'])
     ls = LogicSim(c, lanes, m=8, c_reuse=case['l_reuse'], strip_forks=case['l_strip'])
     rows = [b.s_pos(n) for n in b.pi] + [b.s_pos(n) for n in b.st]
     s_len = len(c.s_nodes)
